@@ -158,12 +158,14 @@ func (x *Exec) verifyFunc(fn *ssa.Function, con *Contract, mode string) (rep Fun
 			x.assumeWF(st, c, fv.Type())
 			st.assume(not(eq(c, "0")))
 			f.env[fv] = x.valFromTerm(c, fv.Type())
+			x.entryVars[fv.Name()] = f.env[fv]
 		} else {
 			x.cellSeq++
 			c := x.freshConst(st, "fv_"+sanitize(fv.Name()), x.ctx.sortOf(elem))
 			x.assumeWF(st, c, elem)
 			st.cells[x.cellSeq] = x.valFromTerm(c, elem)
 			f.env[fv] = Val{Ty: fv.Type(), Loc: &Loc{Kind: LCell, Cell: x.cellSeq, Elem: elem}}
+			x.entryVars[fv.Name()] = st.cells[x.cellSeq]
 		}
 	}
 	x.assumeAxioms(st, x.pkgTypes())
